@@ -31,6 +31,8 @@ func runC13(e *Env) {
 	ruleC13Shorten(e, units)
 	ruleC13Sep(e)
 	ruleC13Group(e)
+	ruleC13Emit(e)
+	e.S.Floor("C13.emit", 3)
 	e.S.Floor("C13.tab", 10)
 	e.S.Floor("C13.sep", 4)
 	e.S.Floor("C13.group", 9)
@@ -485,4 +487,124 @@ func ruleC13Group(e *Env) {
 			}
 		}
 	}
+}
+
+// ruleC13Emit: the formatter writes the decimal digits of the shortened value in order, then the unit, nothing else.
+func ruleC13Emit(e *Env) {
+	const rule = "C13.emit"
+	fn := e.Fn(rule, "size", "DefaultFormatter")
+	sh := e.P.Method("size", "Size", "Shorten")
+	if fn == nil || sh == nil {
+		return
+	}
+	site := flow.FnName(fn)
+	pos := e.Pos(fn)
+	var shCall *ssa.Call
+	for _, c := range e.C.Calls(fn, func(f *ssa.Function) bool { return f == sh }) {
+		shCall = c
+	}
+	if shCall == nil || flow.Strip(shCall.Call.Args[0]) != ssa.Value(fn.Params[1]) {
+		e.S.Bad(rule, site, "shorten", "the formatter does not shorten the size it is given", pos, "")
+		return
+	}
+	var val, unit ssa.Value
+	for _, r := range *shCall.Referrers() {
+		if ex, ok := r.(*ssa.Extract); ok {
+			if ex.Index == 0 {
+				val = ex
+			} else {
+				unit = ex
+			}
+		}
+	}
+	var digits ssa.Value
+	for _, c := range e.C.Calls(fn, func(f *ssa.Function) bool {
+		return f.String() == "strconv.FormatUint" || f.String() == "strconv.AppendUint" || f.String() == "strconv.Itoa" || f.String() == "strconv.FormatInt"
+	}) {
+		name := c.Call.StaticCallee().String()
+		ai := 0
+		if name == "strconv.AppendUint" {
+			ai = 1
+		}
+		if c.Call.Args[ai] != val {
+			e.S.Bad(rule, site, "digits", "the decimal digits are not those of the shortened value", e.posOf(c), "")
+			return
+		}
+		if name != "strconv.Itoa" {
+			if b, ok := flow.ConstInt(c.Call.Args[ai+1]); !ok || b != 10 {
+				e.S.Bad(rule, site, "digits", "the value is not printed in base 10", e.posOf(c), "")
+				return
+			}
+		}
+		digits = c
+	}
+	if digits == nil {
+		e.S.Unk(rule, site, "digits", "no strconv decimal conversion of the shortened value found", pos)
+		return
+	}
+	e.S.Ok(rule, site, "digits", "digits = decimal text of Shorten's value", pos)
+	// appends: inside the digit loop one element of the digit text at the loop index; after it the unit
+	var loopAppend, unitAppend *ssa.Call
+	others := 0
+	for _, b := range fn.Blocks {
+		for _, in := range b.Instrs {
+			call, ok := in.(*ssa.Call)
+			if !ok {
+				continue
+			}
+			bi, ok := call.Call.Value.(*ssa.Builtin)
+			if !ok || bi.Name() != "append" {
+				continue
+			}
+			data := call.Call.Args[1]
+			switch {
+			case data == unit:
+				unitAppend = call
+			case isSingleElemOf(data, digits):
+				loopAppend = call
+			default:
+				others++
+			}
+		}
+	}
+	switch {
+	case loopAppend == nil:
+		e.S.Bad(rule, site, "digit loop", "no append of the digit at the loop index: digits are not copied one by one in order", pos, "")
+	case others > 0:
+		e.S.Bad(rule, site, "digit loop", fmt.Sprintf("%d further append(s) in the formatter besides digits, separators (appendSeparator) and the unit", others), pos, "")
+	default:
+		e.S.Ok(rule, site, "digit loop", "each digit of the text is appended once, in order (range over the digit text)", e.posOf(loopAppend))
+	}
+	if unitAppend == nil {
+		e.S.Bad(rule, site, "unit", "the unit returned by Shorten is not appended", pos, "")
+		return
+	}
+	okRet := false
+	for _, r := range flow.Returns(fn) {
+		if len(r.Results) == 2 && r.Results[0] == ssa.Value(unitAppend) && flow.IsNilConst(r.Results[1]) {
+			okRet = true
+		}
+	}
+	if okRet && loopAppend != nil && !(unitAppend.Block() == loopAppend.Block()) {
+		e.S.Ok(rule, site, "unit", "the unit is appended after the digit loop and that buffer is returned", e.posOf(unitAppend))
+	} else {
+		e.S.Bad(rule, site, "unit", "the buffer returned is not digits followed by the unit", e.posOf(unitAppend), "")
+	}
+}
+
+// isSingleElemOf: v is the one-element variadic slice holding text[index] of the converted digit text.
+func isSingleElemOf(v ssa.Value, text ssa.Value) bool {
+	elems := flow.Varargs(v)
+	if len(elems) != 1 || elems[0] == nil {
+		return false
+	}
+	ld, ok := elems[0].(*ssa.UnOp)
+	if !ok {
+		return false
+	}
+	ia, ok := ld.X.(*ssa.IndexAddr)
+	if !ok {
+		return false
+	}
+	return flow.Strip(ia.X) == text
 }
